@@ -105,6 +105,14 @@ class Case:
         home = box.home
         box.reset()
         with open(os.path.join(home, ".qmail"), "w") as f:
+            # "first": another instruction in front of the delivery under test has already read (all or part of) the message from the shared
+            # descriptor - every delivery instruction gets the whole message nevertheless (added after seeded change C12-I)
+            if sc.get("first"):
+                f.write(sc["first"] + "\n")
+                for ln in sc["first"].split("\n"):
+                    if ln.endswith("/"):
+                        for s_ in ("tmp", "new", "cur"):
+                            os.makedirs(os.path.join(home, ln[2:-1], s_), exist_ok=True)
             f.write("./Maildir/\n" if self.kind == "maildir" else "./mbox\n")
         with open(box.msgf, "wb") as f:
             f.write(self.msg)
@@ -476,6 +484,9 @@ def run_input(box, sc, stats, full=True, pick=12):
     v, gold, grc = one(("golden",))
     if v or grc is None:
         return v
+    if sc.get("first"):
+        stats.cls("delivery_after_another_instruction")
+        return None             # crash points and fault sites of the trace would mostly belong to the other instruction
     plans = make_plans(c, gold)
     if not plans:
         return None
@@ -638,6 +649,7 @@ scenario = st.fixed_dictionaries({
     "garbage": st.sampled_from([False, False, False, True]),
     "exists": st.booleans(),
     "collide": st.sampled_from([[]] * 30 + [["tmp"], ["new"], ["tmp", "new"]]),
+    "first": st.sampled_from([None] * 8 + ["./other.mbox", "./Other/", "|cat >/dev/null", "|head -c 7 >/dev/null; exit 0"]),
     "tape": st.lists(st.integers(0, 10 ** 6), min_size=12, max_size=12),
 })
 
@@ -669,6 +681,10 @@ def boundary_inputs():
             out.append(base_sc(kind, [{"l": 0}, {"l": 8}], sender=snd, before=old[:1]))
         out.append(base_sc(kind, [{"l": 8}], local="new\nline", host="h\nX-Injected: yes", sender="a\nb@c"))
         out.append(base_sc(kind, [{"l": 8}], exists=True))
+    for kind in ("maildir", "mbox"):
+        for first in ("./other.mbox", "./Other/", "|cat >/dev/null", "|head -c 7 >/dev/null; exit 0", "|exit 0", "./other.mbox\n./Other/"):
+            out.append(base_sc(kind, [{"fl": 300}, {"l": 0}, {"l": 8}], target=3000, first=first))
+            out.append(base_sc(kind, [{"l": 8}], first=first, before=old[:1]))
     out.append(base_sc("maildir", [{"l": 8}], collide=["tmp"]))
     out.append(base_sc("maildir", [{"l": 8}], collide=["new"]))
     out.append(base_sc("maildir", [{"l": 8}], collide=["tmp", "new"], before=old))
